@@ -155,6 +155,76 @@ pub fn rasn_paths(paths: &[String], cfg: &Cfg) -> Run {
     wrap(|| Compiler::<RasnBackend, _>::new_with_config(cfg.to_rasn()).add_asn_sources_by_path(paths.iter().cloned()).compile_to_string())
 }
 
+/// One step of a builder chain: how the next source(s) reach the compiler, or the point where the output mode is set.
+#[derive(Clone, Debug, PartialEq, Eq, Hash)]
+pub enum Step {
+    /// `add_asn_literal(text of source i)`
+    Literal(usize),
+    /// `add_asn_by_path(file holding source i)`
+    Path(usize),
+    /// `add_asn_sources_by_path(files holding these sources)`
+    Paths(Vec<usize>),
+    /// `set_output_mode(OutputMode::NoOutput)` (moves the builder into the other half of its typestate machine)
+    SetOutput,
+}
+
+enum AnyState<B: Backend> {
+    M(Compiler<B, CompilerMissingParams>),
+    S(Compiler<B, CompilerSourcesSet>),
+    O(Compiler<B, CompilerOutputSet>),
+    R(Compiler<B, CompilerReady>),
+}
+
+fn deliver<B: Backend>(start: Compiler<B, CompilerMissingParams>, files: &[std::path::PathBuf], srcs: &[String], plan: &[Step]) -> Result<CompileResult, CompilerError> {
+    use rasn_compiler::OutputMode;
+    let mut st = AnyState::M(start);
+    for step in plan {
+        st = match (st, step) {
+            (AnyState::M(c), Step::Literal(i)) => AnyState::S(c.add_asn_literal(srcs[*i].clone())),
+            (AnyState::M(c), Step::Path(i)) => AnyState::S(c.add_asn_by_path(files[*i].clone())),
+            (AnyState::M(c), Step::Paths(v)) => AnyState::S(c.add_asn_sources_by_path(v.iter().map(|i| files[*i].clone()))),
+            (AnyState::M(c), Step::SetOutput) => AnyState::O(c.set_output_mode(OutputMode::NoOutput)),
+            (AnyState::S(c), Step::Literal(i)) => AnyState::S(c.add_asn_literal(srcs[*i].clone())),
+            (AnyState::S(c), Step::Path(i)) => AnyState::S(c.add_asn_by_path(files[*i].clone())),
+            (AnyState::S(c), Step::Paths(v)) => AnyState::S(c.add_asn_sources_by_path(v.iter().map(|i| files[*i].clone()))),
+            (AnyState::S(c), Step::SetOutput) => AnyState::R(c.set_output_mode(OutputMode::NoOutput)),
+            (AnyState::O(c), Step::Literal(i)) => AnyState::R(c.add_asn_literal(srcs[*i].clone())),
+            (AnyState::O(c), Step::Path(i)) => AnyState::R(c.add_asn_by_path(files[*i].clone())),
+            (AnyState::O(c), Step::Paths(v)) => AnyState::R(c.add_asn_sources_by_path(v.iter().map(|i| files[*i].clone()))),
+            (AnyState::O(c), Step::SetOutput) => AnyState::O(c),
+            (AnyState::R(c), Step::Literal(i)) => AnyState::R(c.add_asn_literal(srcs[*i].clone())),
+            (AnyState::R(c), Step::Path(i)) => AnyState::R(c.add_asn_by_path(files[*i].clone())),
+            (AnyState::R(c), Step::Paths(v)) => AnyState::R(c.add_asn_sources_by_path(v.iter().map(|i| files[*i].clone()))),
+            (AnyState::R(c), Step::SetOutput) => AnyState::R(c),
+        };
+    }
+    match st {
+        AnyState::S(c) => c.compile_to_string(),
+        AnyState::R(c) => c.compile_to_string(),
+        _ => panic!("harness: delivery plan adds no source"),
+    }
+}
+
+/// Compile `srcs` handed over by the builder chain `plan` (every source index must occur exactly once, in ascending order, so
+/// that the order of sources equals that of `rasn(srcs)`); `ts` selects the TypeScript backend.
+pub fn delivered(srcs: &[String], cfg: &Cfg, plan: &[Step], ts: bool) -> Run {
+    static N: std::sync::atomic::AtomicU64 = std::sync::atomic::AtomicU64::new(0);
+    let dir = std::path::PathBuf::from(format!("/verif/gen-ws/delivery/{}-{}", std::process::id(), N.fetch_add(1, std::sync::atomic::Ordering::Relaxed)));
+    std::fs::create_dir_all(&dir).expect("harness: delivery dir");
+    let files: Vec<std::path::PathBuf> = srcs
+        .iter()
+        .enumerate()
+        .map(|(i, s)| {
+            let f = dir.join(format!("src{i}.asn1"));
+            std::fs::write(&f, s).expect("harness: write source");
+            f
+        })
+        .collect();
+    let run = wrap(|| if ts { deliver(Compiler::<TypescriptBackend, _>::new(), &files, srcs, plan) } else { deliver(Compiler::<RasnBackend, _>::new_with_config(cfg.to_rasn()), &files, srcs, plan) });
+    let _ = std::fs::remove_dir_all(&dir);
+    run
+}
+
 /// Abstract a panic message: digits and quoted text removed, so that the signature
 /// is stable under unrelated edits but distinguishes sites/messages.
 pub fn panic_template(p: &str) -> String {
